@@ -91,6 +91,16 @@ def _infcmp(op):
         return SBool(getattr(_o, op)(a.t, b.t))
     return f
 
+def _operand(o):
+    return isinstance(o, (Sym, bool, int, float, complex, numpy.generic))
+
+def _guard(f):
+    def g(s, o):
+        if not _operand(o): return NotImplemented
+        return f(s, o)
+    g.__name__ = f.__name__
+    return g
+
 class Sym:
     __slots__ = ()
     __array_priority__ = 1e6
@@ -151,6 +161,9 @@ class Sym:
         r = s.__eq__(o)
         return r if r is NotImplemented else SBool(z3.Not(r.t))
     def _eq(a, b): return SBool(a.t == b.t)
+
+for _n in ('add', 'radd', 'sub', 'rsub', 'mul', 'rmul', 'truediv', 'rtruediv', 'floordiv', 'rfloordiv', 'mod', 'rmod', 'pow', 'rpow', 'lt', 'le', 'gt', 'ge'):
+    setattr(Sym, f'__{_n}__', _guard(getattr(Sym, f'__{_n}__')))
 
 class SBool(Sym):
     __slots__ = ('t',)
@@ -215,6 +228,7 @@ class SReal(Sym):
     def cast(s, k):
         if k == 'f': return s
         if k == 'c': return SCplx(s.t, z3.RealVal(0))
+        if k == 'b': return SBool(s.t != 0)
         raise Unsupported(f'downcast real->{k}')
     def _add(a, b): return SReal(a.t + b.t)
     def _sub(a, b): return SReal(a.t - b.t)
@@ -291,6 +305,7 @@ class SCplx(Sym):
     def __init__(s, re, im): s.re, s.im = re, im
     def cast(s, k):
         if k == 'c': return s
+        if k == 'b': return SBool(z3.Or(s.re != 0, s.im != 0))
         raise Unsupported('downcast complex')
     def _add(a, b): return SCplx(a.re + b.re, a.im + b.im)
     def _sub(a, b): return SCplx(a.re - b.re, a.im - b.im)
@@ -302,6 +317,8 @@ class SCplx(Sym):
         return SCplx((a.re * b.re + a.im * b.im) / d, (a.im * b.re - a.re * b.im) / d)
     def _eq(a, b): return SBool(z3.And(a.re == b.re, a.im == b.im))
     def conjugate(s): return SCplx(s.re, -s.im)
+    def __abs__(s): return SReal(s.re * s.re + s.im * s.im)._pow(lift(.5))
+    def __bool__(s): return decide(z3.Or(s.re != 0, s.im != 0))
     @property
     def real(s): return SReal(s.re)
     @property
